@@ -323,8 +323,8 @@ CHECKS = {
         "assumptions": ["at most 24 sessions per case (each allocates two 128KiB buffers)"],
         "required_classes": {"quick": ["op:skip", "op:fresh", "sessions:>1", "flush:some", "entropy:periodic", "new:shorter", "new:longer", "bowl:session-wrote-after-the-checkpoint-it-is-resumed-from"],
                              "thorough": ["op:skip", "op:fresh", "sessions:>1", "flush:some", "entropy:periodic", "entropy:constant", "new:shorter", "new:longer", "new:empty"]},
-        "stages": [rapid("overlay", "TestProp", 16000, 600000, qs=16, ts=16, qt=600, tt=5400),
-                   rapid("viabowl", "TestViaBowl", 8000, 300000, qs=16, ts=16, qt=600, tt=5400)],
+        "stages": [rapid("overlay", "TestProp", 16000, 400000, qs=16, ts=16, qt=600, tt=5400),
+                   rapid("viabowl", "TestViaBowl", 8000, 160000, qs=16, ts=16, qt=600, tt=5400)],
     },
     "C12": {
         "title": "A bsdiff series applied to the old file yields the new file",
